@@ -117,6 +117,40 @@ func (t *thrModel) resolveCallee(ci ssa.CallInstruction) *ssa.Function {
 	return nil
 }
 
+// factoryResult: v is (a variable assigned once with) the result of a call of a closure factory — also
+// when a transparent helper hands that result on: the literal the factory returns and the binding of the
+// factory's parameters at that call.
+func (t *thrModel) factoryResult(v ssa.Value) (*ssa.Function, paramBinding) {
+	v = strip(v)
+	if u, ok := v.(*ssa.UnOp); ok && u.Op == token.MUL {
+		if cell := cellOf(u.X); cell != nil {
+			if sts := storesToCell(cell); len(sts) == 1 {
+				v = strip(sts[0].Val)
+			}
+		}
+	}
+	for i := 0; i < 3; i++ {
+		cl, ok := v.(*ssa.Call)
+		if !ok {
+			return nil, nil
+		}
+		g := staticCallee(&cl.Call)
+		if g == nil {
+			return nil, nil
+		}
+		if lit := returnedClosure(g); lit != nil {
+			return lit, bindingOf(cl, g)
+		}
+		// a transparent helper that returns what a factory gave it
+		rv := resultOf(v)
+		if rv == v {
+			return nil, nil
+		}
+		v = rv
+	}
+	return nil, nil
+}
+
 // paramBinding: what a call passes for each parameter of its (static) callee.
 type paramBinding map[*ssa.Parameter]ssa.Value
 
@@ -141,6 +175,17 @@ func (t *thrModel) rootUnder(v ssa.Value, bind paramBinding) ssa.Value {
 		noParamLook++
 		sr := strip(r)
 		noParamLook--
+		// a field of a handle object passed by value (`h.topic` of `handle.unregister()`): what the
+		// object bound at this call holds in that field
+		if po, fld := paramObjectField(sr); po != nil {
+			if a, has := bind[po]; has {
+				if fv := structFieldValue(a, fld, 0); fv != nil {
+					r = t.sl.rootOf(fv)
+					continue
+				}
+			}
+			break
+		}
 		p, ok := sr.(*ssa.Parameter)
 		if !ok {
 			break
@@ -169,6 +214,16 @@ func (t *thrModel) releasesIn(fn *ssa.Function, r registration, depth int, bind 
 				inner := bindingOf(ci, g)
 				for p, a := range inner {
 					inner[p] = t.rootUnder(a, bind)
+				}
+				// (the outer binding stays in force: a root traced through a single-caller helper ends in
+				// the outer function's parameters again)
+				if inner == nil && bind != nil {
+					inner = paramBinding{}
+				}
+				for p, a := range bind {
+					if _, has := inner[p]; !has {
+						inner[p] = a
+					}
 				}
 				if t.releasesIn(g, r, depth+1, inner) {
 					return true
@@ -226,6 +281,11 @@ func (t *thrModel) isReleaseInstr(in ssa.Instruction, r registration) bool {
 		if g := t.resolveCallee(ci); g != nil && pkgPathOf(g) == PkgThreshold && t.releasesIn(g, r, 0, bindingOf(ci, g)) {
 			return true
 		}
+		// the function a release factory returned (`release := s.topicReleaser(topic)` … `defer release()`):
+		// the literal, with the factory's parameters bound to the arguments of that call
+		if lit, fb := t.factoryResult(ci.Common().Value); lit != nil && pkgPathOf(lit) == PkgThreshold && t.releasesIn(lit, r, 0, fb) {
+			return true
+		}
 	}
 	return false
 }
@@ -250,8 +310,62 @@ func (t *thrModel) registrations() []registration {
 					continue
 				}
 			}
+			// … or a field of a parameter object of such a helper (installRBC(rbcSession{topicHash: …}, …))
+			if po, pf := paramObjectField(root); po != nil && po.Parent() == fn && helperCall(fn) == nil {
+				if cs := staticCallsTo(t.fns, fn); len(cs) >= 2 {
+					idx := paramIndex(po)
+					all := true
+					var lifted []registration
+					for _, c := range cs {
+						var kv ssa.Value
+						if idx >= 0 && idx < len(c.Common().Args) {
+							kv = structFieldValue(c.Common().Args[idx], pf, 0)
+						}
+						if kv == nil {
+							all = false
+							break
+						}
+						lifted = append(lifted, registration{table: f, key: kv, instr: c.(ssa.Instruction), lifted: true})
+					}
+					if all {
+						out = append(out, lifted...)
+						out = append(out, registration{table: f, key: mu.Key, instr: mu, inHelper: true})
+						continue
+					}
+				}
+			}
 			out = append(out, registration{table: f, key: mu.Key, instr: mu})
 		}
+	}
+	// a lifted registration whose key is again a parameter of a function with several callers
+	// (`s.addSyncHandler(topic, h)` around the table helper): lifted once more, to those callers
+	for round := 0; round < 2; round++ {
+		var next []registration
+		for _, r := range out {
+			if !r.lifted || r.key == nil {
+				next = append(next, r)
+				continue
+			}
+			fn := r.instr.Parent()
+			noParamLook++
+			root := strip(t.sl.rootOf(r.key))
+			noParamLook--
+			p, ok := root.(*ssa.Parameter)
+			cs := staticCallsTo(t.fns, fn)
+			if !ok || p.Parent() != fn || helperCall(fn) != nil || len(cs) < 2 || usedAsFuncValue[fn] {
+				next = append(next, r)
+				continue
+			}
+			idx := paramIndex(p)
+			for _, c := range cs {
+				if idx >= 0 && idx < len(c.Common().Args) {
+					next = append(next, registration{table: r.table, key: c.Common().Args[idx], instr: c.(ssa.Instruction), lifted: true})
+				}
+			}
+			r.inHelper, r.lifted = true, false
+			next = append(next, r)
+		}
+		out = next
 	}
 	for _, st := range storesToField(t.fns, t.fDKGRunning) {
 		if k, ok := st.Val.(*ssa.Const); ok && k.Value != nil && k.Value.String() == "true" {
@@ -378,6 +492,7 @@ func checkC12(c *Ctx) {
 		done := func(in ssa.Instruction) bool { return t.isReleaseInstr(in, r) }
 		contOK := func(cont *ssa.Function) bool {
 			// the continuation releases on all of its exits: a release is deferred in its entry block before anything can return
+			cont = litBody(cont) // a method value standing for the literal: the method's body
 			for _, in := range cont.Blocks[0].Instrs {
 				if d, ok := in.(*ssa.Defer); ok && t.isReleaseInstr(d, r) {
 					return true
@@ -389,7 +504,7 @@ func checkC12(c *Ctx) {
 			return false
 		}
 		local := pathToReturnAvoiding(r.instr, done, syncNilEdgeSkipper(t.sl, fn, contOK))
-		if local == nil && fn.Signature.Results().Len() == 0 && !fnIsAPIRoot(fn, apiRoots) {
+		if local == nil && (fn.Signature.Results().Len() == 0 || rootOfHelper(fn).Signature.Results().Len() == 0) && !fnIsAPIRoot(fn, apiRoots) && !fnIsAPIRoot(rootOfHelper(fn), apiRoots) {
 			// released before the registering function (a continuation / helper without results) returns
 			c.OK(O1, fname, construct, pos, "released on every exit of the registering function (deferred release, explicit release on every arm, or Synchronize's continuation ran)")
 			continue
@@ -549,9 +664,11 @@ func checkC12(c *Ctx) {
 	}
 	nL2 := 0
 	for _, r := range regs {
-		if r.key == nil || r.lifted {
+		if r.key == nil {
 			continue
 		}
+		// (a registration through a table helper counts where the helper is called: the refusing test
+		// stands next to that call)
 		fn := r.instr.Parent()
 		for _, in := range instrsOf(fn) {
 			lk, ok := in.(*ssa.Lookup)
@@ -685,6 +802,63 @@ func checkC12(c *Ctx) {
 		}
 	}
 
+	// ------------------------------------------------------------------ K1
+	// Sessions of Sign are told apart by their topic only: every key under which code reached from Sign
+	// registers a handler, and every topic it puts on the wire, is a function of Sign's topic parameter.
+	// A key that depends on something else alone (the signer set, a constant) is shared by concurrent
+	// sessions on different topics: the later registration replaces the earlier one and the first
+	// session to finish removes the handler the other still uses.
+	const K1 = "C12.K1"
+	c.Rule(K1, "table keys and wire topics of a signing session derive from Sign's topic parameter", 3)
+	if sign := c.mustFunc(m, PkgThreshold, "Scheme", "Sign"); sign != nil {
+		var topicParam *ssa.Parameter
+		for _, p := range sign.Params {
+			if b, ok := p.Type().Underlying().(*types.Basic); ok && b.Kind() == types.String {
+				if topicParam != nil {
+					topicParam = nil
+					break
+				}
+				topicParam = p
+			}
+		}
+		if topicParam == nil {
+			c.Unk(K1, FuncName(sign), "topic parameter", m.Pos(sign.Pos()), "Sign no longer has exactly one string parameter (the topic): cannot tell what identifies a session")
+		} else {
+			keygen := m.Func(PkgThreshold, "Scheme", "KeyGen")
+			onlySign := func(fn *ssa.Function) bool {
+				return t.reaches(sign, fn) && (keygen == nil || !t.reaches(keygen, fn))
+			}
+			for _, r := range regs {
+				if r.inHelper || r.key == nil {
+					continue
+				}
+				fn := r.instr.Parent()
+				if !onlySign(fn) {
+					continue
+				}
+				sl := t.sl.Slice(r.key)
+				c.Check(sl[topicParam], K1, FuncName(fn), "key of the registration into "+r.table.Name(), m.Pos(r.instr.Pos()),
+					"the key derives from Sign's topic parameter",
+					"the key under which this signing session registers its handler does not depend on the session's topic: concurrent Sign calls on different topics (with the same signers) share one table slot — one session's handler replaces the other's, traffic of both reaches one instance, and the first to finish removes the handler the other still needs")
+			}
+			for _, fn := range t.fns {
+				if !onlySign(fn) {
+					continue
+				}
+				for _, call := range callsOfFuncField([]*ssa.Function{fn}, t.fSend) {
+					args := call.Common().Args
+					if len(args) < 2 {
+						continue
+					}
+					sl := t.sl.Slice(args[1])
+					c.Check(sl[topicParam], K1, FuncName(fn), "wire topic of a send", m.Pos(call.Pos()),
+						"the topic sent derives from Sign's topic parameter",
+						"a message of this signing session is sent under a topic that does not depend on the session's topic: peers dispatch it to whichever session holds that topic")
+				}
+			}
+		}
+	}
+
 	// ------------------------------------------------------------------ G1
 	nDisp := 0
 	for _, f := range []*types.Var{t.fSyncTab, t.fRBCTab, t.fClsTab} {
@@ -733,6 +907,60 @@ func checkC12(c *Ctx) {
 			}
 		}
 	}
+	// … and, backwards, calls through a func value that resolves — through a snapshot struct and the
+	// parameters of the dispatching steps — to the entry a comma-ok lookup of one of the tables found
+	counted := map[ssa.Instruction]bool{}
+	for _, f := range []*types.Var{t.fSyncTab, t.fRBCTab, t.fClsTab} {
+		for _, lk := range lookupsOfField(t.fns, f) {
+			if !lk.CommaOk || lk.Referrers() == nil {
+				continue
+			}
+			for _, ref := range *lk.Referrers() {
+				if e, ok := ref.(*ssa.Extract); ok && e.Index == 0 && e.Referrers() != nil {
+					for _, u := range *e.Referrers() {
+						if ci, ok := u.(ssa.CallInstruction); ok {
+							counted[ci] = true // seen by the forward pass above
+						}
+					}
+				}
+			}
+		}
+	}
+	for _, fn := range t.fns {
+		for _, in := range instrsOf(fn) {
+			ci, ok := in.(ssa.CallInstruction)
+			if !ok || counted[in] || ci.Common().IsInvoke() || ci.Common().StaticCallee() != nil {
+				continue
+			}
+			if _, isB := ci.Common().Value.(*ssa.Builtin); isB {
+				continue
+			}
+			e, ok := strip(ci.Common().Value).(*ssa.Extract)
+			if !ok || e.Index != 0 || e == ci.Common().Value {
+				continue
+			}
+			lk, ok := e.Tuple.(*ssa.Lookup)
+			if !ok || !lk.CommaOk {
+				continue
+			}
+			var tab *types.Var
+			for _, f := range []*types.Var{t.fSyncTab, t.fRBCTab, t.fClsTab} {
+				if isLoadOfField(lk.X, f) {
+					tab = f
+				}
+			}
+			if tab == nil {
+				continue
+			}
+			nDisp++
+			okF := boolFact(FactsAt(in), true, func(v ssa.Value) bool {
+				tup, isOK := commaOK(strip(v))
+				return isOK && tup == ssa.Value(lk)
+			})
+			c.Check(okF, G1, FuncName(fn), "use of "+tab.Name()+" entry", m.Pos(in.Pos()), "on the found arm of the lookup (entry and flag carried from the lookup to the call)",
+				"a handler taken from the table is used although the topic has no live session (nil call or late traffic reaching a finished session)")
+		}
+	}
 	if nDisp < 3 {
 		c.Bad(G1, "threshold", "dispatch sites", "-", fmt.Sprintf("only %d uses of table entries found", nDisp))
 	}
@@ -746,6 +974,28 @@ func checkC12(c *Ctx) {
 		"StoredData":  {"(*threshold.Scheme).SetStoredData": true},
 		"Send":        {"threshold.SilentScheme": true},
 	}
+	var constructionFn func(fn *ssa.Function, d int) bool
+	constructionFn = func(fn *ssa.Function, d int) bool {
+		if fn == nil || d > 3 {
+			return false
+		}
+		if fn.Parent() == nil && (fn.Name() == "LoudScheme" || fn.Name() == "SilentScheme") {
+			return true
+		}
+		if fn.Object() == nil || fn.Object().Exported() || funcUsedAsValue(t.fns, fn) {
+			return false
+		}
+		cs := staticCallsTo(t.fns, fn)
+		if len(cs) == 0 {
+			return false
+		}
+		for _, c := range cs {
+			if !constructionFn(c.Parent(), d+1) {
+				return false
+			}
+		}
+		return true
+	}
 	st := t.scheme.Underlying().(*types.Struct)
 	var names []string
 	for i := 0; i < st.NumFields(); i++ {
@@ -756,17 +1006,27 @@ func checkC12(c *Ctx) {
 		f := t.m.Field(PkgThreshold, "Scheme", n)
 		for _, s := range storesToField(t.fns, f) {
 			fn := s.Parent()
-			// constructor literals (fresh, unpublished object) are fine
-			if a, ok := strip(s.Addr.(*ssa.FieldAddr).X).(*ssa.Alloc); ok && a.Parent() == fn && (fn.Name() == "LoudScheme" || fn.Name() == "SilentScheme") {
-				if !(n == "Send" && fn.Name() == "SilentScheme") {
+			// constructor literals (fresh, unpublished object) are fine — in a constructor, or in a step
+			// that only constructors call, on the object that step (or a further such step) allocates
+			if constructionFn(fn, 0) {
+				base := s.Addr.(*ssa.FieldAddr).X
+				a, fresh := strip(base).(*ssa.Alloc)
+				fresh = fresh && a.Parent() == fn
+				if !fresh {
+					if ca, _, _ := ctorLiteral(base); ca != nil && constructionFn(ca.Parent(), 0) {
+						fresh = true
+					}
+				}
+				if fresh && !(n == "Send" && fn.Name() == "SilentScheme") {
 					continue
 				}
 			}
-			ok := allowedWriters[nameBack(n)][nameBack(FuncName(fn))]
+			// (a step split off a permitted writer, called only from it, is part of that writer)
+			ok := allowedWriters[nameBack(n)][nameBack(FuncName(fn))] || allowedWriters[nameBack(n)][nameBack(FuncName(rootOfHelper(fn)))]
 			switch f {
 			case t.fDKGRunning, t.fSyncTab, t.fRBCTab, t.fClsTab:
 				ok = true
-				if f != t.fDKGRunning && fn != t.setup {
+				if f != t.fDKGRunning && !inlinedInto(fn, t.setup) {
 					ok = false // the tables themselves are only ever replaced by setup
 				}
 			}
